@@ -189,6 +189,16 @@ def gen_fmt(rng, tier):
         plus = rng.choice(["-", "-", "+"])
         yield Case("f.fmt", [kind, "none" if p is None else dec(p), "none" if w is None else dec(w), plus, farg(b, s, e, prec, mode)],
                    nontrivial=p is not None or w is not None)
+    # tiny non-zero values printed with {:.N}: the directed modes must still round away from / toward zero as the mode says
+    #    (Up/Away of a tiny positive value is 0.0..01, Down/Away of a tiny negative one is -0.0..01), all six modes, both signs
+    for b in (BASES if tier == "thorough" else [2, 10, 36]):
+        for mode in MODES:
+            for sgn in (1, -1):
+                for p in (0, 1, 3):
+                    for k in (p + 1, p + 2, p + 9, 60):
+                        for s0 in (1, b // 2, b - 1):
+                            s, e = norm(sgn * s0, -k, b)
+                            yield Case("f.fmt", ["disp", dec(p), "none", "-", farg(b, s, e, max(1, ndigits(s, b)), mode)], nontrivial=True)
     # exponent-zero integers with a width (layout)
     for b in BASES:
         for v in [0, 1, b - 1, b + 1, 123, -45]:
@@ -237,6 +247,26 @@ def gen_conv(rng, tier):
                 prec = rng.choice([32, 33, 40, 43, 64, 100, 128, 129]) + 0 * prec   # B^p around and beyond 2^128
                 prec = max(prec, ndigits(s, b))
             yield Case("f.with_base", [dec(nb), farg(b, s, e, prec, mode)], nontrivial=abs(e) > 0)
+    # exactly representable values with exponent magnitude 20..38 (the upper part of the exact-evaluation range of
+    #    convert_base, |e| <= 38) between bases that are not powers of one another: the result must be exact and flagged Exact
+    for (b, nb) in [(x, y) for (x, y) in PAIRS if not is_pow_related(x, y)]:
+        for e in ([20, 21, 25, 30, 31, 37, 38] if tier == "quick" else list(range(18, 39))):
+            for mode in (rng.sample(MODES, 2) if tier == "quick" else MODES):
+                s0 = rng.choice([1, -1, b - 1, b + 1, rng.randrange(1, b ** 3)])
+                s, e2 = norm(s0, e, b)
+                if s == 0 or abs(e2) > THRESH:
+                    continue
+                # positive exponent: an integer, representable once the precision covers all its digits
+                need = ndigits(abs(s) * b ** e2, nb) + 2
+                prec = ndigits(s, b) + e2 + 3            # source precision chosen so that the derived precision suffices
+                yield Case("f.with_base_prec", [dec(nb), dec(need), farg(b, s, e2, max(1, ndigits(s, b)), mode)], nontrivial=True)
+                yield Case("f.with_base", [dec(nb), farg(b, s, e2, prec + 8, mode)], nontrivial=True)
+                # negative exponent: s / b^k is representable in base nb iff every prime of b divides nb (2 -> 10, 3 -> 36 ...)
+                if all(nb % q == 0 for q in range(2, b + 1) if b % q == 0 and all(q % t for t in range(2, q))):
+                    s, e3 = norm(s0, -e, b)
+                    if s and abs(e3) <= THRESH and abs(e3) >= 18:
+                        need = ndigits(abs(s) * (nb ** abs(e3)) // (b ** abs(e3)), nb) + 2
+                        yield Case("f.with_base_prec", [dec(nb), dec(max(need, 1)), farg(b, s, e3, max(1, ndigits(s, b)), mode)], nontrivial=True)
     # the large-exponent branch: judged by exact arithmetic in the harness
     m = 150 if tier == "quick" else 6000
     for _ in range(m):
@@ -302,7 +332,8 @@ RULE = ("parse: the documented grammar as a generator for bases {2,3,8,10,16,36}
         "significands, exponents 0..+-400, all six modes, Display / LowerExp / UpperExp with precision in {none,0,1,2,3,-exp+-1,30}, "
         "width, `+`; half-way and all-nines significands aimed at the rounding and its carry. rt: print then parse. conversions: "
         "15 base pairs x 6 modes, explicit and derived precision, exponents within the exact-evaluation threshold (|e| <= 38) and "
-        "any exponent for power-related bases; the ln/exp branch (|e| in 39..300) is judged by exact rational arithmetic in the "
+        "any exponent for power-related bases, plus exactly representable values with |e| in 20..38 (18..38 thorough) for every non "
+        "power-related pair (must come back Exact); tiny non-zero values under {:.N} for all six modes and both signs; the ln/exp branch (|e| in 39..300) is judged by exact rational arithmetic in the "
         "harness. IEEE: special bit patterns and random f32/f64. Non-trivial := literal longer than 12 bytes / a precision or "
         "width option / non-zero exponent; distinct := distinct case lines.")
 REFINED = [
